@@ -306,9 +306,18 @@ int filter_tee_header (struct filter *chain)
 		lerr (_("error closing output file %s"),
 			env.outfilename != NULL ? env.outfilename : "<stdout>");
 
-	while (wait (0) > 0) ;
+	{
+		/* The header branch of the chain runs in our children: its
+		 * failure (e.g. the header file cannot be written) is ours.
+		 */
+		int status, failed = 0;
 
-	FLEX_EXIT (0);
+		while (wait (&status) > 0)
+			if (!WIFEXITED (status) || WEXITSTATUS (status) != 0)
+				failed = 1;
+
+		FLEX_EXIT (failed ? EXIT_FAILURE : 0);
+	}
 	return 0;
 }
 
